@@ -1117,6 +1117,9 @@ class Fxp():
             self._run_callbacks('on_status_underflow')
         
         if self.config.overflow == 'saturate':
+            if isinstance(new_val, np.ndarray) and new_val.dtype.kind == 'f' and self.n_word > 53 and np.all(np.isfinite(new_val)):
+                # the limits of the word are not exact in float64: python integers are clipped instead
+                new_val = np.array(list(map(int, new_val.flatten())), dtype=object).reshape(new_val.shape)
             if isinstance(new_val, np.ndarray) and new_val.dtype == object:
                 val = np.clip(new_val, val_min, val_max)
             else:
